@@ -100,23 +100,38 @@ fn burst_case(t: &mut Tape) -> GCase {
     let mut events = vec![];
     let press_gap = *t.choose(&[0u32, 0, 1]);
     let order_rev = t.chance(1, 2);
-    for k in &keys {
-        if press_gap > 0 {
-            events.push(Ev::Gap(press_gap));
-        }
-        events.push(Ev::Press(kc(k)));
-    }
-    events.push(Ev::Gap(*t.choose(&[0u32, 1, 5, 40])));
     let rel_gap = *t.choose(&[0u32, 0, 1, 2]);
-    let mut ks: Vec<&&str> = keys.iter().collect();
-    if order_rev {
-        ks.reverse();
-    }
-    for k in ks {
-        if rel_gap > 0 {
-            events.push(Ev::Gap(rel_gap));
+    if t.chance(1, 4) {
+        // every key tapped, one after the other (one-shots stack instead of being held)
+        for k in &keys {
+            if press_gap > 0 {
+                events.push(Ev::Gap(press_gap));
+            }
+            events.push(Ev::Press(kc(k)));
+            if rel_gap > 0 {
+                events.push(Ev::Gap(rel_gap.min(1)));
+            }
+            events.push(Ev::Release(kc(k)));
         }
-        events.push(Ev::Release(kc(k)));
+        features.push("burst-of-taps".to_string());
+    } else {
+        for k in &keys {
+            if press_gap > 0 {
+                events.push(Ev::Gap(press_gap));
+            }
+            events.push(Ev::Press(kc(k)));
+        }
+        events.push(Ev::Gap(*t.choose(&[0u32, 1, 5, 40])));
+        let mut ks: Vec<&&str> = keys.iter().collect();
+        if order_rev {
+            ks.reverse();
+        }
+        for k in ks {
+            if rel_gap > 0 {
+                events.push(Ev::Gap(rel_gap));
+            }
+            events.push(Ev::Release(kc(k)));
+        }
     }
     features.push(format!("burst-kind-{kind}"));
     GCase {
@@ -173,6 +188,23 @@ fn latching(cfg: &str) -> bool {
     bad
 }
 
+/// The case a tape of choices denotes (every tape denotes one: generation by construction). Also
+/// the decoder of the coverage-guided tier (fuzz/fuzz_targets/tape_c01.rs).
+pub fn case_from_tape(tape: &[u16]) -> GCase {
+    let mut head = Tape::new(tape);
+    if head.chance(1, 16) {
+        let mut t = Tape::new(&tape[1.min(tape.len())..]);
+        return burst_case(&mut t);
+    }
+    let rest = &tape[1.min(tape.len())..];
+    let (cfg_tape, ev_tape) = rest.split_at(rest.len() * 2 / 3);
+    let b = build_cfg(cfg_tape, Profile::Plausible, false);
+    let mut t = Tape::new(ev_tape);
+    let gaps = gap_set(&b, &[50, 1200]);
+    let events = consistent_events(&mut t, &b, &gaps, 40, true, false);
+    gcase_from(b, events, true)
+}
+
 impl TypedProp for C01 {
     type C = GCase;
     fn id(&self) -> &'static str {
@@ -205,22 +237,7 @@ impl TypedProp for C01 {
         Gen::Strat(0)
     }
     fn strategy(&self, _tier: Tier, _key: u32) -> BoxedStrategy<GCase> {
-        prop::collection::vec(any::<u16>(), 0..600)
-            .prop_map(|tape| {
-                let mut head = Tape::new(&tape);
-                if head.chance(1, 16) {
-                    let mut t = Tape::new(&tape[1.min(tape.len())..]);
-                    return burst_case(&mut t);
-                }
-                let rest = &tape[1.min(tape.len())..];
-                let (cfg_tape, ev_tape) = rest.split_at(rest.len() * 2 / 3);
-                let b = build_cfg(cfg_tape, Profile::Plausible, false);
-                let mut t = Tape::new(ev_tape);
-                let gaps = gap_set(&b, &[50, 1200]);
-                let events = consistent_events(&mut t, &b, &gaps, 40, true, false);
-                gcase_from(b, events, true)
-            })
-            .boxed()
+        prop::collection::vec(any::<u16>(), 0..600).prop_map(|tape| case_from_tape(&tape)).boxed()
     }
     fn judge(&self, case: &GCase) -> Verdict {
         let files: std::collections::HashMap<String, String> = case.files.iter().cloned().collect();
